@@ -187,6 +187,9 @@ func mergeObjects(d *dataTreeNavigator, context Context, lhs *CandidateNode, rhs
 		log.Debugf("pathIndexToStartFrom: %v", pathIndexToStartFrom)
 	}
 
+	paths := map[*CandidateNode][]interface{}{}
+	collectMergePaths(rhs, []interface{}{}, prefs.RecurseArray, paths)
+
 	for el := results.Front(); el != nil; el = el.Next() {
 		candidate := el.Value.(*CandidateNode)
 
@@ -196,7 +199,11 @@ func mergeObjects(d *dataTreeNavigator, context Context, lhs *CandidateNode, rhs
 			continue
 		}
 
-		err := applyAssignment(d, context, pathIndexToStartFrom, lhs, candidate, preferences)
+		lhsPath, positionKnown := paths[candidate]
+		if !positionKnown {
+			lhsPath = candidate.GetPath()[pathIndexToStartFrom:]
+		}
+		err := applyAssignment(d, context, lhsPath, lhs, candidate, preferences)
 		if err != nil {
 			return nil, err
 		}
@@ -206,10 +213,27 @@ func mergeObjects(d *dataTreeNavigator, context Context, lhs *CandidateNode, rhs
 	return lhs, nil
 }
 
-func applyAssignment(d *dataTreeNavigator, context Context, pathIndexToStartFrom int, lhs *CandidateNode, rhs *CandidateNode, preferences multiplyPreferences) error {
+// where every node below n sits relative to n: map entries by the text of their key, sequence
+// items by their index. The recorded keys (GetPath) are no substitute: in a rebuilt sequence
+// (+, sort, reverse, slice, [..]) they are stale, and they turn a key like 0x1F or 007 into a number.
+func collectMergePaths(n *CandidateNode, path []interface{}, recurseArray bool, paths map[*CandidateNode][]interface{}) {
+	paths[n] = path
+	if n.Kind == MappingNode {
+		for i := 0; i+1 < len(n.Content); i += 2 {
+			childPath := append(append([]interface{}{}, path...), n.Content[i].Value)
+			paths[n.Content[i]] = childPath
+			collectMergePaths(n.Content[i+1], childPath, recurseArray, paths)
+		}
+	} else if n.Kind == SequenceNode && recurseArray {
+		for i, child := range n.Content {
+			collectMergePaths(child, append(append([]interface{}{}, path...), i), recurseArray, paths)
+		}
+	}
+}
+
+func applyAssignment(d *dataTreeNavigator, context Context, lhsPath []interface{}, lhs *CandidateNode, rhs *CandidateNode, preferences multiplyPreferences) error {
 	shouldAppendArrays := preferences.AppendArrays
 
-	lhsPath := rhs.GetPath()[pathIndexToStartFrom:]
 	log.Debugf("merge - lhsPath %v", lhsPath)
 
 	assignmentOp := &Operation{OperationType: assignAttributesOpType, Preferences: preferences.AssignPrefs}
